@@ -77,7 +77,7 @@ class Sim:
 
     def __init__(self, b, controls=None, spawn_limit=(120, 120), gate_m=False, gate_progs=None,
                  trace="m", plan=None, count="m", oracles=(), qq_tee=True, home=None, label="",
-                 daemon_env=None):
+                 daemon_env=None, reuse_home=False):
         self.b = b
         self.home = home or build.mktemp("nqv-sim-")
         self.controls = dict(controls or {})
@@ -92,6 +92,7 @@ class Sim:
         self.oracles = list(oracles)
         self.qq_tee = qq_tee
         self.daemon_env_extra = daemon_env or {}
+        self.reuse_home = reuse_home
         self.label = label
         self.events = []
         self.seq = 0
@@ -126,14 +127,25 @@ class Sim:
 
     # ------------------------------------------------------------------ setup
     def _setup(self):
-        sandbox.make_home(self.b, self.home, controls=self.controls,
-                          bins=("qmail-queue", "qmail-clean", "qmail-send"))
+        if self.reuse_home:
+            # run the daemons on a queue somebody else left behind (C01: post-crash trees of qmail-queue)
+            import shutil
+            for name in ("qmail-queue", "qmail-clean", "qmail-send"):
+                if not os.path.exists(self.home + "/bin/" + name):
+                    shutil.copy(self.b.path(name), self.home + "/bin/" + name)
+            for k, v in self.controls.items():
+                sandbox.write_control(self.home, k, v)
+        else:
+            sandbox.make_home(self.b, self.home, controls=self.controls,
+                              bins=("qmail-queue", "qmail-clean", "qmail-send"))
         self.rec = os.path.join(self.home, "rec")
-        os.mkdir(self.rec)
-        self.clock = shim.Clock(self.home + "/clock")
+        os.makedirs(self.rec, exist_ok=True)
+        self.clock = shim.Clock(self.home + "/clock.sim" if self.reuse_home else self.home + "/clock")
         self.logfile = self.home + "/evlog"
         open(self.logfile, "wb").close()
         self.gatepath = self.home + "/gate"
+        if os.path.exists(self.gatepath):
+            os.unlink(self.gatepath)
         self.lsock = socket.socket(socket.AF_UNIX, socket.SOCK_STREAM)
         self.lsock.bind(self.gatepath)
         self.lsock.listen(64)
@@ -675,7 +687,7 @@ class Sim:
         self.clock.close()
         if getattr(self, "keep_log", False):
             self.final_log = shim.read_log(self.logfile)
-        if not os.environ.get("NQV_KEEP_HOMES"):
+        if not os.environ.get("NQV_KEEP_HOMES") and not self.reuse_home:
             import shutil
             shutil.rmtree(self.home, ignore_errors=True)
 
